@@ -8,3 +8,28 @@ package domutil
 //@ func HasRootDomain(url, root)
 //@   fresh_assigns net/url.URL.*
 //@   ensures [C19] #host-equal-or-dot-suffix result == rootDomainOK(url, root)
+
+//@ func GetParentElement(node)
+//@   requires node != nil
+//@   assigns nothing
+//@   ensures result == nil || result.Type == 3
+//@   ensures implies(node.Parent != nil && node.Parent.Type == 3, result == node.Parent)
+//@   loop 0 invariant parent == node.Parent || !(node.Parent != nil && node.Parent.Type == 3)
+
+//@ func GetNearestCommonAncestor(nodes)
+//@   trusted
+//@   requires forall(i, 0 <= i && i < len(nodes), nodes[i] != nil)
+//@   fresh_assigns elems(ref), maps
+//@   ensures implies(len(nodes) > 0 && old(sameTree(nodes)), result != nil && allocated(result))
+//@   ensures implies(len(nodes) == 1, result == old(nodes[0]))
+//@   ensures implies(len(nodes) > 1 && result != nil, result.Type == 3)
+
+//@ func TreeClone(nodes)
+//@   trusted
+//@   requires forall(i, 0 <= i && i < len(nodes), nodes[i] != nil)
+//@   fresh_assigns html.Node.*, elems(attr), elems(ref), maps
+//@   ensures implies(len(nodes) > 0 && old(sameTree(nodes)), result != nil && fresh(result) && result.Parent == nil)
+//@   ensures implies(len(nodes) == 1, result == nil || result.Type == old(nodes[0].Type))
+
+//@ func GetDisplayStyle(node)
+//@   requires node != nil
